@@ -331,3 +331,12 @@ def crypto_registry(vc):
 from pyvc.harness import reuse as _reuse
 _reuse("C03/write_file.passes-key-and-offset", "C06/write_file.passes-key-and-offset")
 _reuse("C05/read_file.passes-flags-and-key", "C06/read_file.passes-flags-and-key")
+
+
+# the cipher is seen through its contract in the proofs above (ENC / DEC / MAC as functions of key, IV and zero-padded data: stored only as AES-128-CBC ciphertext under a zero IV);
+# that contract - the registered adapter IS zero-padded AES-128-CBC with the given or all-zero IV, its MAC the last block, and
+# it refuses empty / ragged input with ValueError - is proved under C16 and discharged under this property too
+from pyvc.harness import reuse as _reuse_aes  # noqa: E402
+for _n in (1, 16, 17):
+    _reuse_aes("C16/adapter[len=%d]" % _n, "C06/AES128Proxy=zero-padded-CBC[len=%d]" % _n)
+_reuse_aes("C16/adapter.bad-lengths", "C06/AES128Proxy.bad-lengths=>ValueError")
